@@ -79,6 +79,12 @@ def run(R):
             m = CS.method_of(arg) if arg else "des-family"
             if m == "des-family":
                 enabled = ("descrypt" in sel) or ("bigcrypt" in sel); same = ("descrypt" in sel) and ("bigcrypt" in sel)
+                if t[0] == "C":
+                    # crypt(5): an untagged setting of at most 13 characters with a phrase longer than 8 is a traditional-DES request even where
+                    # bigcrypt owns the untagged settings; it needs descrypt itself (seeded/C19)
+                    plen = len(unhx(t[3]) or b""); slen = len(arg)
+                    req = "descrypt" if (plen > 8 and slen <= 13) else ("bigcrypt" if "bigcrypt" in sel else "descrypt")
+                    enabled = req in sel
             else:
                 enabled = m in sel; same = enabled
             f = fields(line)
